@@ -44,21 +44,32 @@ vars  == <<cvars, lvars, dvars>>
 NT == 4
 T  == 1..NT
 TN == <<"t1", "t2", "t3", "t4">>
-Files == {"f1", "f2"}
+\* tree:  /        (Directory "root")  entries  d, f1, f2
+\*        /d       (Directory "sub")   entry    f3          -- every object cached (looked up before the run)
+\* so that parent->child lock order (listing / flushing the root visits d, d visits f3) and child->parent
+\* propagation (a flush or metadata update of f3 / of d goes up through d to the root) both occur.
+Files == {"f1", "f2", "f3"}
+NN == <<"n1", "n2", "n3", "n4">>      \* lock of a directory object created by the thread itself (Mkdir of a new name)
 LockIds == {<<"desc", f>> : f \in Files} \cup {<<"node", f>> : f \in Files}
            \cup {<<"dir", "root">>, <<"dir", "sub">>} \cup {<<"mu", TN[t]>> : t \in T}
+           \cup {<<"dir", NN[t]>> : t \in T}
 
 -----------------------------------------------------------------------------
 (* programs *)
 Rd3(f, e) == << <<"R", "node", f, "-">>, <<"rd", "val", f, e>>, <<"RU", "node", f, "-">> >>
 DirLU(e)  == << <<"L", "dir", "root", "-">>, <<"U", "dir", "root", e>> >>
+SubLU(e)  == << <<"L", "dir", "sub", "-">>, <<"U", "dir", "sub", e>> >>
+\* parent.updateChildEntry for file f: one localUpdate section per ancestor directory, bottom-up, never nested
+UpP(f, e) == IF f = "f3" THEN SubLU(e) \o DirLU(e) ELSE DirLU(e)
+\* Directory.getNode of d: lock, cacheSync visits the cached f3 (File.GetNode), unlock
+SubSync   == << <<"L", "dir", "sub", "-">> >> \o Rd3("f3", "sync") \o << <<"U", "dir", "sub", "-">> >>
 Mu(t, e)  == << <<"L", "mu", TN[t], "-">>, <<"U", "mu", TN[t], e>> >>
 
 \* fileDescriptor.flushUp(fullSync) in descriptor state s
 FlushUpP(f, s, sync) ==
     IF s \in {"created", "dirty"}
     THEN << <<"L", "node", f, "-">>, <<"wr", "val", f, "stbuf">>, <<"U", "node", f, "-">> >>
-         \o (IF sync THEN DirLU("pubbuf") ELSE <<>>)
+         \o (IF sync THEN UpP(f, "pubbuf") ELSE <<>>)
     ELSE <<>>
 
 OpenP(f, k, e) == << <<k, "desc", f, "-">>, <<"R", "node", f, "-">>, <<"rd", "val", f, "ldbuf">>,
@@ -76,10 +87,10 @@ ModeAsBuilt(f) == << <<"R", "node", f, "-">> >> \o Rd3(f, "ldloc") \o << <<"RU",
 \* setNodeData reads File.node WITHOUT any lock for the links (= the content blocks, i.e. the tokens),
 \* later assigns the node built from these two stale reads, and reads File.node unlocked once more
 SetAttrIdeal(f) == << <<"L", "node", f, "-">>, <<"rd", "val", f, "ldloc">>, <<"wr", "val", f, "stloc">>,
-                      <<"U", "node", f, "-">> >> \o DirLU("publoc")
+                      <<"U", "node", f, "-">> >> \o UpP(f, "publoc")
 SetAttrAsBuilt(f) == Rd3(f, "ldloc") \o << <<"rd", "val", f, "ldtmp">>, <<"L", "node", f, "-">>,
                    <<"wr", "val", f, "sttmp">>, <<"U", "node", f, "-">>, <<"rd", "val", f, "ldtmp">> >>
-                 \o DirLU("pubtmp")
+                 \o UpP(f, "pubtmp")
 Variants(d, ideal, asbuilt) == IF d \in Devs THEN (IF Both THEN {ideal, asbuilt} ELSE {asbuilt}) ELSE {ideal}
 ModeP(f)    == Variants("Dev_C20_ModeReentrantRLock", ModeIdeal(f), ModeAsBuilt(f))
 SetAttrP(f) == Variants("Dev_C20_SetAttrLostUpdate", SetAttrIdeal(f), SetAttrAsBuilt(f))
@@ -89,12 +100,11 @@ DevsOf(p) == {d \in Devs : \E f \in Files :
                  \/ d = "Dev_C20_SetAttrLostUpdate" /\ p = SetAttrAsBuilt(f)}
 
 \* Directory.ForEachEntry on the root (entries d, f1, f2 in name order): child.GetNode() then Size()
-ListP == << <<"L", "dir", "root", "-">>, <<"L", "dir", "sub", "-">>, <<"U", "dir", "sub", "-">> >>
+ListP == << <<"L", "dir", "root", "-">> >> \o SubSync
          \o Rd3("f1", "peek") \o Rd3("f1", "peek") \o Rd3("f2", "peek") \o Rd3("f2", "peek")
          \o << <<"U", "dir", "root", "-">> >>
 \* Directory.getNode: cacheSync visits the cached entries in Go map order (perm = order of the 3)
-SyncEnt(x) == IF x = "d" THEN << <<"L", "dir", "sub", "-">>, <<"U", "dir", "sub", "-">> >>
-              ELSE Rd3(x, "sync")
+SyncEnt(x) == IF x = "d" THEN SubSync ELSE Rd3(x, "sync")
 DirGetNodeP(perm) == << <<"L", "dir", "root", "-">> >> \o SyncEnt(perm[1]) \o SyncEnt(perm[2])
                      \o SyncEnt(perm[3]) \o << <<"U", "dir", "root", "-">> >>
 Perms == {p \in [1..3 -> {"d", "f1", "f2"}] : \A i, j \in 1..3 : i # j => p[i] # p[j]}
@@ -108,6 +118,8 @@ ProgSet(op, f, t, s, w, sync, hs) ==
       [] op = "OpenWn"   -> {OpenP(f, "L", "openw")}
       [] op = "OpenR"    -> {OpenP(f, "R", "openr")}
       [] op = "Write"    -> {Mu(t, "-") \o Mu(t, "wbuf")}              \* Seek(0, End); Write(token)
+      [] op = "WriteAt"  -> {Mu(t, "-") \o Mu(t, "wbuf")}              \* n := Size(); WriteAt(token, n)
+      [] op = "Trunc"    -> {Mu(t, "-") \o Mu(t, "tbuf")}              \* n := Size(); Truncate(n + 1)
       [] op = "Read"     -> {Mu(t, "rbuf")}                            \* CtxReadFull
       [] op = "FdFlush"  -> {FdFlushP(t, f, s)}
       [] op = "Close"    -> {CloseP(t, f, s, w, sync)}
@@ -124,8 +136,28 @@ ProgSet(op, f, t, s, w, sync, hs) ==
       [] op \in {"ListNames", "Lookup", "Mkdir", "Unlink", "Uncache0"} -> {DirLU("-")}
       [] op = "DirGetNode" -> {DirGetNodeP(p) : p \in Perms}
       [] op = "DirFlush" -> {DirGetNodeP(p) : p \in Perms}
+      [] op = "RootFlush" -> {DirGetNodeP(p) : p \in Perms}           \* Root.Flush = root directory GetNode
+      \* Directory.SetMode/SetModTime on the ROOT directory: GetNode, then setNodeData (its parent is the
+      \* Root object, which has no lock) re-locks the directory to replace unixfsDir
+      [] op = "RootSetMode" -> {DirGetNodeP(p) \o DirLU("-") : p \in Perms}
+      \* the same on the sub-directory d: GetNode (own lock), propagate to the parent (the root's lock, d's
+      \* own lock NOT held: holding it here would be child->parent against List's parent->child), re-lock d
+      [] op \in {"SubSetMode", "SubSetModTime"} -> {SubSync \o DirLU("-") \o SubLU("-")}
+      [] op \in {"ChmodSub", "TouchSub"} -> {DirLU("-") \o SubSync \o DirLU("-") \o SubLU("-")}   \* Lookup("/d"), then the above
+      [] op \in {"SubMode", "SubModTime", "SubGetNode"} -> {SubSync}
+      [] op = "SubFlush" -> {SubSync \o DirLU("-")}                   \* getNode(true), parent.updateChildEntry
+      [] op = "SubList"  -> {<< <<"L", "dir", "sub", "-">> >> \o Rd3("f3", "peek") \o Rd3("f3", "peek")
+                             \o << <<"U", "dir", "sub", "-">> >>}
+      [] op \in {"SubListNames", "SubLookup", "SubUnlink", "SubAddChild"} -> {SubLU("-")}
+      [] op = "AddChild" -> {DirLU("-")}
+      \* Mkdir of a NEW name: under the parent's lock the new directory object is created and its GetNode()
+      \* takes the new object's own lock (parent->child)
+      [] op = "MkdirNew" -> {<< <<"L", "dir", "root", "-">>, <<"L", "dir", NN[t], "-">>, <<"U", "dir", NN[t], "-">>,
+                                <<"U", "dir", "root", "-">> >>}
       \* Mv(/f2 -> /f9): Child(src); src.GetNode(); Child(dst) fails; AddChild; Unlink(src)
       [] op = "Mv"       -> {DirLU("-") \o Rd3(f, "peek") \o DirLU("-") \o DirLU("-") \o DirLU("-")}
+      \* Mv(/d -> /e): the same with a directory as the source object (GetNode = SubSync)
+      [] op = "MvSub"    -> {DirLU("-") \o SubSync \o DirLU("-") \o DirLU("-") \o DirLU("-")}
 
 -----------------------------------------------------------------------------
 Ops(t) == IF t <= Len(scen) THEN scen[t] ELSE <<>>
@@ -186,6 +218,7 @@ Apply(t, e, f, g) ==
                   [] OTHER -> entry
     /\ buf' = CASE e = "ldbuf" -> [buf EXCEPT ![t] = node[f]]
                 [] e = "wbuf"  -> [buf EXCEPT ![t] = @ \cup {Tok(t)}]
+                [] e = "tbuf"  -> [buf EXCEPT ![t] = @ \cup {0}]        \* Truncate(size + 1): one more (zero) byte
                 [] OTHER -> buf
     /\ loc' = IF e = "ldloc" THEN [loc EXCEPT ![t] = node[f]] ELSE loc
     /\ tmp' = IF e = "ldtmp" THEN [tmp EXCEPT ![t] = node[f]] ELSE tmp
@@ -193,7 +226,7 @@ Apply(t, e, f, g) ==
     /\ acked' = IF e \in {"ack", "ackff"} \/ (e = "ackclose" /\ fdw[t])
                 THEN [acked EXCEPT ![f] = @ \cup buf[t]] ELSE acked
     /\ fdst' = CASE e \in {"openws", "openw", "openr"} -> [fdst EXCEPT ![t] = "created"]
-                 [] e = "wbuf" -> [fdst EXCEPT ![t] = "dirty"]
+                 [] e \in {"wbuf", "tbuf"} -> [fdst EXCEPT ![t] = "dirty"]     \* EVERY modifying call: Write, WriteAt, Truncate
                  [] e = "ack" -> [fdst EXCEPT ![t] = "flushed"]
                  [] e = "ackclose" -> [fdst EXCEPT ![t] = "none"]
                  [] OTHER -> fdst
